@@ -17,8 +17,6 @@
 #include "vx_stubs.hpp"
 int vx_reader_dtors; void* vx_reader_dtor_obj; int vx_entity_dtors; void* vx_entity_dtor_obj;
 static XMLCh vx_names[2][2];
-// (the declaration's strings are static: its destructor is cut to a counter, so nothing is released through the manager)
-static DTDEntityDecl* mkent(MemoryManager* mm, int k, XMLCh c) { DTDEntityDecl* e = new (mm) DTDEntityDecl(mm); vx_names[k][0] = c; vx_names[k][1] = 0; e->fName = vx_names[k]; return e; }
 extern "C" void harness_pushreader(void) {
   VxMMFixed<160> mm;
   static VxRaw<ReaderMgr> mr; ReaderMgr* mgr = &mr.obj; mgr->fMemoryManager = &mm;
@@ -27,11 +25,14 @@ extern "C" void harness_pushreader(void) {
   // readers are identities only (their destructor is cut to a counter; operator delete releases the block)
   XMLReader* r0 = (XMLReader*)malloc(16); XMLReader* rc = (XMLReader*)malloc(16); XMLReader* rn = (XMLReader*)malloc(16);
   VX_ASSUME(r0 != 0 && rc != 0 && rn != 0);
-  DTDEntityDecl* e1 = mkent(&mm, 0, n1); DTDEntityDecl* e2 = mkent(&mm, 1, n2);
-  ReaderMgr::ReaderData* d0 = new (&mm) ReaderMgr::ReaderData(r0, stackEntityNull ? 0 : e1, false);
-  ReaderMgr::ReaderData* dc = haveCur ? new (&mm) ReaderMgr::ReaderData(rc, 0, false) : 0;
+  // everything else is typed static storage set up field by field (a heap stack of heap entries gave no verdict)
+  static VxRaw<DTDEntityDecl> er1, er2; DTDEntityDecl* e1 = new (&er1.obj) DTDEntityDecl(&mm); DTDEntityDecl* e2 = new (&er2.obj) DTDEntityDecl(&mm);
+  vx_names[0][0] = n1; vx_names[0][1] = 0; vx_names[1][0] = n2; vx_names[1][1] = 0; e1->fName = vx_names[0]; e2->fName = vx_names[1];
+  static VxRaw<ReaderMgr::ReaderData> dr0, drc; ReaderMgr::ReaderData* d0 = &dr0.obj; ReaderMgr::ReaderData* dc = haveCur ? &drc.obj : 0;
+  d0->fReader = r0; d0->fEntity = stackEntityNull ? 0 : e1; d0->fEntityAdopted = false; drc.obj.fReader = rc; drc.obj.fEntity = 0; drc.obj.fEntityAdopted = false;
+  static VxRaw<RefStackOf<ReaderMgr::ReaderData> > sr; static ReaderMgr::ReaderData* slots[16];
   mgr->fReaderStack = 0;
-  if (haveStack) { mgr->fReaderStack = new (&mm) RefStackOf<ReaderMgr::ReaderData>(16, true, &mm); mgr->fReaderStack->push(d0); }
+  if (haveStack) { RefStackOf<ReaderMgr::ReaderData>* st = &sr.obj; st->fVector.fAdoptedElems = true; st->fVector.fCurCount = 1; st->fVector.fMaxCount = 16; st->fVector.fElemList = slots; st->fVector.fMemoryManager = &mm; slots[0] = d0; mgr->fReaderStack = st; }
   mgr->fCurReaderData = dc; mgr->fCurReader = haveCur ? rc : 0;
   XMLSize_t size0 = haveStack ? mgr->fReaderStack->size() : 0;
   bool res = mgr->pushReaderAdoptEntity(rn, withEntity ? e2 : 0, adopt);
